@@ -231,3 +231,244 @@ Proof.
 Qed.
 
 End Value.
+
+(* ---------------------------------------------------------------- the public operations are instances of the column loop *)
+
+(* the statement C08 has to provide for a per-coefficient kernel f (this is `column_value_ok` above, closed) *)
+Definition column_value_stmt (rb ab off keep sgn P u : Z) (f : list Z -> list Z -> option (list Z))
+           (guard : list Z -> list Z -> Prop) : Prop :=
+  forall a r0 out, f a r0 = Some out -> guard a r0 ->
+    length out = length r0 /\
+    exists e m, val_of P rb out = keep * val_of P rb r0 + sgn * val_of (P + off) ab a + e + m * 2 ^ P /\ Z.abs e <= u.
+
+(* kernel, source operand and (off, keep, sgn) of the shift / normalise opcodes of exec_op *)
+Definition sn_kernel (opc rb ab k : Z) : list Z -> list Z -> option (list Z) :=
+  match opc with
+  | 13 => fun _ r => Some (rsh_assign W64 rb k r)
+  | 14 => fun _ r => Some (lsh_assign W64 rb k r)
+  | 15 => fun x r => Some (lsh W64 true rb k x r)
+  | 16 => fun x r => Some (lsh W64 false rb k x r)
+  | 17 => fun x r => Some (lsh_sub W64 rb k x r)
+  | 18 => fun x r => normalize W64 rb ab 0 x r
+  | _ => fun _ r => Some (normalize_assign W64 rb r)
+  end.
+Definition sn_inplace (opc : Z) : bool := (opc =? 13) || (opc =? 14) || (opc =? 19).
+Definition sn_off (opc k : Z) : Z := match opc with 13 => - k | 14 | 15 | 16 | 17 => k | _ => 0 end.
+Definition sn_keep (opc : Z) : Z := match opc with 16 | 17 => 1 | _ => 0 end.
+Definition sn_sgn (opc : Z) : Z := match opc with 17 => -1 | _ => 1 end.
+
+Lemma mapi_cols_opt_ext g (f1 f2 : nat -> limbs -> option limbs) :
+  (forall i, (i < g_ncols g)%nat -> f1 i (gcol g i) = f2 i (gcol g i)) -> mapi_cols_opt g f1 = mapi_cols_opt g f2.
+Proof.
+  intros H. unfold mapi_cols_opt.
+  rewrite (map_seq_ext (fun i => f1 i (gcol g i)) (fun i => f2 i (gcol g i))) by exact H. reflexivity.
+Qed.
+
+Lemma exec_op_colloop n opc scr k res a b r : 13 <= opc <= 19 ->
+  (sn_inplace opc = false -> g_ncols a = g_ncols res) ->
+  exec_op opc n scr k res a b = Some r ->
+  colloop (sn_kernel opc (g_b res) (g_b a) k) n res (if sn_inplace opc then res else a) = Some r.
+Proof.
+  intros Ho Hc He.
+  assert (Hcases : opc = 13 \/ opc = 14 \/ opc = 15 \/ opc = 16 \/ opc = 17 \/ opc = 18 \/ opc = 19) by lia.
+  destruct Hcases as [-> | [-> | [-> | [-> | [-> | [-> | ->]]]]]]; cbn [exec_op sn_kernel sn_inplace Z.eqb Pos.eqb orb] in *.
+  - unfold glwe_rsh in He. destruct (_ <=? _); [exact He | discriminate].
+  - unfold glwe_lsh_assign in He. destruct (_ <=? _); [exact He | discriminate].
+  - unfold glwe_lsh, glwe_lsh_gen in He. destruct (_ && _)%bool; [|discriminate]. rewrite <- He.
+    unfold colloop. apply mapi_cols_opt_ext. intros i Hi.
+    destruct (Nat.ltb_spec i (g_ncols a)); [reflexivity | specialize (Hc eq_refl); lia].
+  - unfold glwe_lsh_add, glwe_lsh_gen in He. destruct (_ && _)%bool; [|discriminate]. rewrite <- He.
+    unfold colloop. apply mapi_cols_opt_ext. intros i Hi.
+    destruct (Nat.ltb_spec i (g_ncols a)); [reflexivity | specialize (Hc eq_refl); lia].
+  - unfold glwe_lsh_sub, glwe_lsh_gen in He. destruct (_ && _)%bool; [|discriminate]. rewrite <- He.
+    unfold colloop. apply mapi_cols_opt_ext. intros i Hi.
+    destruct (Nat.ltb_spec i (g_ncols a)); [reflexivity | specialize (Hc eq_refl); lia].
+  - unfold glwe_normalize in He. destruct (_ && _)%bool; [exact He | discriminate].
+  - unfold glwe_normalize_assign in He. destruct (_ <=? _); [exact He | discriminate].
+Qed.
+
+(* shift / normalise at the GLWE level, from the per-column statement *)
+Theorem exec_op_phase_value n s opc scr k res a b r P u guard :
+  13 <= opc <= 19 -> 0 <= u ->
+  column_value_stmt (g_b res) (if sn_inplace opc then g_b res else g_b a) (sn_off opc k) (sn_keep opc) (sn_sgn opc) P u
+                    (sn_kernel opc (g_b res) (g_b a) k) guard ->
+  secret_ok n s -> wf_glwe n res -> wf_glwe n a ->
+  (sn_inplace opc = false -> g_ncols a = g_ncols res) ->
+  (forall i t, (i < g_ncols res)%nat -> (t < n)%nat ->
+     guard (coeff_limbs (gcol (if sn_inplace opc then res else a) i) t) (coeff_limbs (gcol res i) t)) ->
+  exec_op opc n scr k res a b = Some r ->
+  forall t, exists E M,
+    nthZ (VP P (g_b res) n s r) t =
+      sn_keep opc * nthZ (VP P (g_b res) n s res) t +
+      sn_sgn opc * nthZ (VP (P + sn_off opc k) (if sn_inplace opc then g_b res else g_b a) n s (if sn_inplace opc then res else a)) t +
+      E + M * 2 ^ P /\
+    Z.abs E <= err_bound u s (g_ncols res).
+Proof.
+  intros Ho Hu Hcv Hs Hres Ha Hc Hg He t.
+  pose proof (exec_op_colloop n opc scr k res a b r Ho Hc He) as Hl.
+  destruct (sn_inplace opc) eqn:Ei.
+  - exact (colloop_phase_value n (g_b res) (g_b res) (sn_off opc k) (sn_keep opc) (sn_sgn opc) P u _ guard Hu Hcv s Hs
+             res res r Hres Hres eq_refl Hg Hl t).
+  - exact (colloop_phase_value n (g_b res) (g_b a) (sn_off opc k) (sn_keep opc) (sn_sgn opc) P u _ guard Hu Hcv s Hs
+             res a r Hres Ha (Hc eq_refl) Hg Hl t).
+Qed.
+
+(* ---------------------------------------------------------------- VP is the value of the limb-wise phase *)
+Lemma zsum_shift f m : zsum f (S m) = f 0%nat + zsum (fun j => f (S j)) m.
+Proof. induction m as [|m IH]; cbn [zsum] in *; lia. Qed.
+
+Definition wgt (P b : Z) (j : nat) : Z := 2 ^ (P - (Z.of_nat j + 1) * b).
+
+Lemma lval_sum P b j0 l : lval P b (Z.of_nat j0) l = zsum (fun j => nthZ l j * wgt P b (j0 + j)) (length l).
+Proof.
+  revert j0; induction l as [|x t IH]; intros j0; [reflexivity|].
+  cbn [lval length]. rewrite zsum_shift.
+  replace (Z.of_nat j0 + 1) with (Z.of_nat (S j0)) by lia. rewrite IH.
+  unfold nthZ at 2. cbn [nth]. unfold wgt at 2. rewrite Nat.add_0_r. f_equal; [f_equal; f_equal; lia|].
+  apply zsum_ext. intros j _. unfold nthZ. cbn [nth]. f_equal. f_equal. lia.
+Qed.
+Lemma val_of_sum P b l : val_of P b l = zsum (fun j => nthZ l j * wgt P b j) (length l).
+Proof. unfold val_of. change 0 with (Z.of_nat 0). rewrite lval_sum. reflexivity. Qed.
+
+Lemma zsum_lsum_swap (Fij : nat -> nat -> Z) (L : list nat) m :
+  zsum (fun j => lsum (fun i => Fij i j) L) m = lsum (fun i => zsum (fun j => Fij i j) m) L.
+Proof.
+  induction L as [|i L IH]; cbn [lsum fold_right].
+  - apply zsum_zero.
+  - fold (lsum (fun i => zsum (fun j => Fij i j) m) L). rewrite <- IH. rewrite <- zsum_add. reflexivity.
+Qed.
+Lemma lsum_ext (f g : nat -> Z) L : (forall i, In i L -> f i = g i) -> lsum f L = lsum g L.
+Proof.
+  induction L as [|i L IH]; intros H; cbn [lsum fold_right]; [reflexivity|].
+  fold (lsum f L) (lsum g L). rewrite IH by (intros; apply H; right; assumption).
+  rewrite (H i (or_introl eq_refl)). reflexivity.
+Qed.
+
+Lemma lsum_mul_r (f : nat -> Z) c L : lsum f L * c = lsum (fun i => f i * c) L.
+Proof.
+  induction L as [|i L IH]; cbn [lsum fold_right]; [lia|].
+  fold (lsum f L) (lsum (fun i => f i * c) L). rewrite <- IH. ring.
+Qed.
+
+Section ValPhase.
+Variables (n : nat) (s : list (list Z)) (P b : Z) (g : glwe).
+Hypothesis Hs : secret_ok n s.
+Hypothesis Hg : wf_glwe n g.
+
+Lemma coeff_limbs_nth (c : limbs) t j : (j < length c)%nat -> nthZ (coeff_limbs c t) j = nthZ (nth j c []) t.
+Proof.
+  intros Hj. unfold coeff_limbs, nthZ at 1.
+  rewrite (nth_indep _ 0 ((fun l => nthZ l t) [])) by (rewrite map_length; exact Hj).
+  rewrite (map_nth (fun l => nthZ l t)). reflexivity.
+Qed.
+
+(* value polynomial of column i = weighted sum of the zero-extended limbs, also for a missing column *)
+Lemma valp_gl i t : (t < n)%nat ->
+  nthZ (valp P b n (gcol g i)) t = zsum (fun j => nthZ (gl n g i j) t * wgt P b j) (g_size g).
+Proof.
+  intros Ht. destruct (Nat.lt_ge_cases i (g_ncols g)) as [Hi|Hi].
+  - rewrite valp_nth by exact Ht. rewrite val_of_sum. unfold coeff_limbs at 2. rewrite map_length.
+    rewrite (gcol_length n g i Hg Hi). apply zsum_ext. intros j Hj.
+    rewrite coeff_limbs_nth by (rewrite (gcol_length n g i Hg Hi); exact Hj).
+    rewrite gl_cl by exact Hg. rewrite cl_in by (rewrite (gcol_length n g i Hg Hi); exact Hj). reflexivity.
+  - rewrite gcol_out by exact Hi. rewrite valp_nil.
+    rewrite (zsum_ext _ (fun _ => 0)); [symmetry; apply zsum_zero|].
+    intros j _. rewrite gl_col_out by exact Hi. rewrite nthZ_pzero. lia.
+Qed.
+
+Lemma xext_valp i m : xext (valp P b n (gcol g i)) m = zsum (fun j => xext (gl n g i j) m * wgt P b j) (g_size g).
+Proof.
+  destruct (Nat.eq_dec n 0) as [H0|H0].
+  - rewrite xext_len0 by (rewrite valp_length; exact H0).
+    rewrite (zsum_ext _ (fun _ => 0)); [symmetry; apply zsum_zero|].
+    intros j _. rewrite xext_len0 by (rewrite gl_length by exact Hg; exact H0). lia.
+  - destruct (exp_decomp (Z.of_nat n) m ltac:(lia)) as (q & r & Hm & Hr).
+    rewrite (xext_at (valp P b n (gcol g i)) m q r) by (rewrite valp_length; lia).
+    rewrite valp_gl by lia. rewrite <- zsum_mul_l. apply zsum_ext. intros j _.
+    rewrite (xext_at (gl n g i j) m q r) by (rewrite gl_length by exact Hg; lia). ring.
+Qed.
+
+Lemma pmul_valp t0 i t : In t0 s -> (t < n)%nat ->
+  nthZ (pmul t0 (valp P b n (gcol g i))) t = zsum (fun j => nthZ (pmul t0 (gl n g i j)) t * wgt P b j) (g_size g).
+Proof.
+  intros Hin Ht. pose proof (sec_len n s Hs t0 Hin) as Lt.
+  rewrite pmul_nth by (rewrite ?valp_length; lia). rewrite Lt.
+  rewrite (zsum_ext _ (fun u => zsum (fun j => nthZ t0 u * xext (gl n g i j) (Z.of_nat t - Z.of_nat u) * wgt P b j) (g_size g))).
+  - rewrite zsum_swap. apply zsum_ext. intros j _.
+    rewrite pmul_nth by (rewrite ?gl_length by exact Hg; lia). rewrite Lt. rewrite <- zsum_mul_r. reflexivity.
+  - intros u _. rewrite xext_valp. rewrite <- zsum_mul_l. apply zsum_ext. intros j _. ring.
+Qed.
+
+Theorem value_of_phase t : nthZ (valp P b n (phase n s g)) t = nthZ (VP P b n s g) t.
+Proof.
+  destruct (Nat.lt_ge_cases t n) as [Ht|Ht].
+  2:{ rewrite !nthZ_overflow; try reflexivity.
+      - unfold VP. rewrite padd_length, valp_length, psum_pmul_length by exact Hs. lia.
+      - rewrite valp_length. exact Ht. }
+  assert (HG : forall (V : nat -> list Z) i, In i (seq 0 (length s)) -> length (pmul (nth i s []) (V i)) = n).
+  { intros V i Hi. rewrite pmul_length. apply (sec_len n s Hs). apply nth_In. apply in_seq in Hi. lia. }
+  unfold VP. rewrite nthZ_padd by (rewrite valp_length; apply psum_pmul_length; exact Hs).
+  rewrite (psum_nth n (fun i => pmul (nth i s []) (valp P b n (gcol g (S i))))) by (apply (HG (fun i => valp P b n (gcol g (S i))))).
+  rewrite valp_nth by exact Ht. rewrite val_of_sum.
+  unfold coeff_limbs at 2. rewrite map_length, phase_length.
+  rewrite (zsum_ext _ (fun j => nthZ (gl n g 0 j) t * wgt P b j
+                               + lsum (fun i => nthZ (pmul (nth i s []) (gl n g (S i) j)) t * wgt P b j) (seq 0 (length s)))).
+  - rewrite zsum_add. rewrite valp_gl by exact Ht. f_equal.
+    rewrite zsum_lsum_swap. apply lsum_ext. intros i Hi.
+    rewrite pmul_valp; [reflexivity | apply nth_In; apply in_seq in Hi; lia | exact Ht].
+  - intros j Hj. rewrite coeff_limbs_nth by (rewrite phase_length; exact Hj).
+    unfold phase. rewrite nth_map_seq by exact Hj. unfold phase_limb.
+    rewrite nthZ_padd by (rewrite gl_length by exact Hg; apply psum_pmul_length; exact Hs).
+    rewrite (psum_nth n (fun i => pmul (nth i s []) (gl n g (S i) j))) by (apply (HG (fun i => gl n g (S i) j))).
+    rewrite Z.mul_add_distr_r. f_equal. apply lsum_mul_r.
+Qed.
+
+End ValPhase.
+
+(* ---------------------------------------------------------------- the result of the column loop is well formed;
+   the theorem stated on the value of the limb-wise phase *)
+Lemma colloop_wf f n res a r : wf_glwe n res -> colloop f n res a = Some r -> wf_glwe n r.
+Proof.
+  intros (Hn & Hc & Hf) Hl. unfold colloop, mapi_cols_opt in Hl.
+  destruct (sequence _) as [cs|] eqn:E; [|discriminate]. injection Hl as <-.
+  destruct (sequence_some _ _ E) as [Lcs Hnth]. rewrite map_seq_length in Lcs.
+  repeat split; cbn [with_cols g_n g_size g_cols].
+  - exact Hn.
+  - unfold g_ncols. cbn [with_cols g_cols]. rewrite Lcs. exact Hc.
+  - rewrite Forall_forall. intros c Hin. destruct (In_nth cs c [] Hin) as (i & Hi & <-).
+    specialize (Hnth i None [] ltac:(rewrite map_seq_length; lia)).
+    rewrite nth_map_seq in Hnth by lia. unfold col_coeff in Hnth.
+    destruct (lift_coeff_some _ _ _ _ _ _ Hnth) as (cs' & Lcs' & -> & _).
+    assert (Hlen : length (gcol res i) = g_size res).
+    { rewrite Forall_forall in Hf. apply (Hf (gcol res i)). apply nth_In. unfold g_ncols in Lcs. lia. }
+    rewrite Hlen. split.
+    + unfold untranspose. apply map_seq_length.
+    + rewrite Forall_forall. intros l Hl. unfold untranspose in Hl. apply in_map_iff in Hl.
+      destruct Hl as (j & <- & _). rewrite map_length. exact Lcs'.
+Qed.
+
+Theorem exec_op_phase_value_limbs n s opc scr k res a b r P u guard :
+  13 <= opc <= 19 -> 0 <= u ->
+  column_value_stmt (g_b res) (if sn_inplace opc then g_b res else g_b a) (sn_off opc k) (sn_keep opc) (sn_sgn opc) P u
+                    (sn_kernel opc (g_b res) (g_b a) k) guard ->
+  secret_ok n s -> wf_glwe n res -> wf_glwe n a ->
+  (sn_inplace opc = false -> g_ncols a = g_ncols res) ->
+  (forall i t, (i < g_ncols res)%nat -> (t < n)%nat ->
+     guard (coeff_limbs (gcol (if sn_inplace opc then res else a) i) t) (coeff_limbs (gcol res i) t)) ->
+  exec_op opc n scr k res a b = Some r ->
+  wf_glwe n r /\
+  forall t, exists E M,
+    nthZ (valp P (g_b res) n (phase n s r)) t =
+      sn_keep opc * nthZ (valp P (g_b res) n (phase n s res)) t +
+      sn_sgn opc * nthZ (valp (P + sn_off opc k) (if sn_inplace opc then g_b res else g_b a) n
+                              (phase n s (if sn_inplace opc then res else a))) t +
+      E + M * 2 ^ P /\
+    Z.abs E <= err_bound u s (g_ncols res).
+Proof.
+  intros Ho Hu Hcv Hs Hres Ha Hc Hg He.
+  assert (Wr : wf_glwe n r).
+  { apply (colloop_wf _ n res _ r Hres (exec_op_colloop n opc scr k res a b r Ho Hc He)). }
+  split; [exact Wr|]. intros t.
+  rewrite !value_of_phase; try assumption; [| destruct (sn_inplace opc); assumption].
+  apply (exec_op_phase_value n s opc scr k res a b r P u guard); assumption.
+Qed.
